@@ -126,8 +126,10 @@ def run(ctx):
             placeholders += sum(len(p or {}) for _, p in obs["sent"])
             if nontrivial(case, out):
                 ctx.nontrivial(n)
-            if case["kind"] == "batch" and len(case["members"]) == 3 and probe is None and not problems:
-                probe = st
+            if not problems and obs["sent"] and len(obs["sent"][0][1] or {}) >= 4:
+                # probe for the binding self-test: preferably a batch of three members, else any conforming case
+                if probe is None or (probe["case"]["kind"] != "batch" and case["kind"] == "batch" and len(case["members"]) == 3):
+                    probe = st
             if n % 997 == 5 or (case["kind"] == "batch" and kinds["batch"] == 40):
                 ctx.sample({"case": _brief(case), "sent": [[" ".join(t.split()), M._show_params(p or {})] for t, p in obs["sent"]]})
             for what, sig in problems:
@@ -145,7 +147,10 @@ def run(ctx):
         if missing or any(k not in kinds for k in ("select", "qsupdate", "qsdelete", "create", "instsave", "instdelete", "counter", "batch")):
             raise tlc.MachineryError("vacuity: not enumerated: %s / kinds %s" % (missing, sorted(kinds)))
         ctx.note("vacuity_witnesses_in_dump", len(WITNESSES))
-        selftest(ctx, env, M, probe)
+        if probe is None and by_signature:
+            ctx.note("binding_selftest", {"skipped": "no conforming case with four placeholders to corrupt (violations reported above)"})
+        else:
+            selftest(ctx, env, M, probe)
     finally:
         env.close()
     ctx.assumptions += [
@@ -184,7 +189,7 @@ def _prof(p):
 def selftest(ctx, env, M, probe):
     """Binding self-test: corrupted observations / expectations must be noticed."""
     if probe is None:
-        raise tlc.MachineryError("binding self-test: no clean batch of three members to probe with")
+        raise tlc.MachineryError("binding self-test: no conforming case to probe with")
     case, out = probe["case"], probe["out"]
     obs = env.run_case(case)
     if env.compare_case(case, out, obs):
@@ -207,13 +212,14 @@ def selftest(ctx, env, M, probe):
     p5["999"] = 1
     for t, p in ((text, p2), (t3, p3), (text, p4), (text, p5)):
         tried += 1
-        rejected += bool(env.compare_case(case, out, {"raised": None, "refused": None, "sent": [(t, p)]}))
+        rejected += bool(env.compare_case(case, out, {"raised": None, "refused": None, "sent": [(t, p)] + list(obs["sent"][1:])}))
     # 5. the expectation is corrupted: one requested value changes
     st0 = dict(out["sent"][0]["stmts"][0])
     vals = list(st0["vals"])
     vals[0] = {"k": "int", "v": 12345}
     st0["vals"] = tuple(vals)
-    bad_out = {"mayrefuse": False, "sent": ({"batch": True, "stmts": (st0,) + tuple(out["sent"][0]["stmts"][1:])},)}
+    bad_out = {"mayrefuse": False, "sent": ({"batch": out["sent"][0]["batch"], "stmts": (st0,) + tuple(out["sent"][0]["stmts"][1:])},) +
+               tuple(out["sent"][1:])}
     tried += 1
     rejected += bool(env.compare_case(case, bad_out, obs))
     if rejected != tried:
